@@ -711,7 +711,10 @@ func ruleTagUniq(c *Ctx, r *Report) {
 				if kv, ok := el.(*ast.KeyValueExpr); ok {
 					if id, ok := kv.Key.(*ast.Ident); ok && id.Name == "Name" {
 						memberArg = kv.Value
-						if cc, ok := ast.Unparen(kv.Value).(*ast.CallExpr); ok && len(cc.Args) == 1 {
+						if cc, ok := ast.Unparen(memberArg).(*ast.CallExpr); ok && FullName(Callee(gi, cc)) == P("genutil")+".MakeNameUnique" && len(cc.Args) == 2 {
+							memberArg = cc.Args[0] // the uniquifier wraps the name that is compared
+						}
+						if cc, ok := ast.Unparen(memberArg).(*ast.CallExpr); ok && len(cc.Args) == 1 {
 							memberArg = cc.Args[0]
 						}
 					}
